@@ -761,6 +761,10 @@ class CorrelatedFieldMaker:
         corr = reduce(mul, a)
         xi = Variable(hspace, self._prefix + 'xi')
         if np.isscalar(self.azm):
+            # The normalized amplitudes are divided by the zero-mode amplitude
+            # (unless it is disabled); multiply it back as in the operator case
+            if self.azm not in (0, 1):
+                corr = corr.scale(self.azm)
             op = ht(corr.real * xi)
         else:
             expander = ContractionOperator(hspace, spaces=spaces).adjoint
@@ -877,6 +881,8 @@ class CorrelatedFieldMaker:
 
         if np.isscalar(self.azm):
             na = normal_amp
+            if self.azm not in (0, 1):
+                na = na.scale(self.azm)
         else:
             space = len(normal_amp.target) - 1
             na = normal_amp * self.azm.broadcast(space, normal_amp.target[space])
